@@ -51,10 +51,22 @@ func stageOf(err error) string {
 		return "decompress"
 	case strings.Contains(s, "[json_unmarshal]"):
 		return "json"
-	case strings.Contains(strings.ToLower(s), "unexpected eof"):
+	case strings.Contains(strings.ToLower(s), "unexpected eof"), strings.Contains(s, "unexpected end of file"):
 		return "shorttype"
 	}
 	return "other:" + strings.ReplaceAll(s, " ", "_")
+}
+
+// recWriter records the size of every Write call: on a message transport
+// (WebSocket) each call is one message, i.e. one chunk on the reading side.
+type recWriter struct {
+	buf   bytes.Buffer
+	sizes []int
+}
+
+func (w *recWriter) Write(p []byte) (int, error) {
+	w.sizes = append(w.sizes, len(p))
+	return w.buf.Write(p)
 }
 
 type readObs struct {
@@ -130,7 +142,7 @@ func isCmd(ty int) bool { b := ty & 0x3F; return b == 0x10 || b == 0x11 }
 
 // runRT executes one round-trip case: real writer -> chunked transport -> real reader.
 func runRT(pk []pkt, sizes []int, tailErr bool) (caseStr, obs string) {
-	var buf bytes.Buffer
+	var buf recWriter
 	w := stream.NewStreamProcessor(nil, &buf, context.Background())
 	var tbl []string
 	werr := ""
@@ -157,7 +169,7 @@ func runRT(pk []pkt, sizes []int, tailErr bool) (caseStr, obs string) {
 			break
 		}
 	}
-	wire := append([]byte{}, buf.Bytes()...)
+	wire := append([]byte{}, buf.buf.Bytes()...)
 	tail := "eof"
 	if tailErr {
 		tail = "err"
@@ -187,7 +199,11 @@ func runRT(pk []pkt, sizes []int, tailErr bool) (caseStr, obs string) {
 	if special != "" {
 		return caseStr, special
 	}
-	return caseStr, ro.String() + " wire " + vc.Hex(wire)
+	wc := make([]string, len(buf.sizes))
+	for i, n := range buf.sizes {
+		wc[i] = strconv.Itoa(n)
+	}
+	return caseStr, ro.String() + " wire " + vc.Hex(wire) + " wc " + strings.Join(wc, ",")
 }
 
 // ---- generators
@@ -263,9 +279,11 @@ func ones(n int) []int {
 	return s
 }
 
-func wireLen(pk []pkt) int {
-	// only used to size chunkings; measured from the real writer
-	var buf bytes.Buffer
+func wireLen(pk []pkt) int { n, _ := wireCalls(pk); return n }
+
+// wireCalls returns the wire length and the sizes of the writer's Write calls.
+func wireCalls(pk []pkt) (int, []int) {
+	var buf recWriter
 	w := stream.NewStreamProcessor(nil, &buf, context.Background())
 	for _, p := range pk {
 		tp := &packet.TransferPacket{PacketType: packet.Type(p.ty)}
@@ -279,7 +297,7 @@ func wireLen(pk []pkt) int {
 		}
 		w.WritePacket(tp, p.comp, 0)
 	}
-	return buf.Len()
+	return buf.buf.Len(), buf.sizes
 }
 
 func keyOf(pk []pkt, sizes []int) string {
@@ -334,8 +352,19 @@ func genRT(out *vc.Out, r *vc.Rand, thorough bool) {
 				}
 				emitRT(out, pk, ones(n), r.Bool(), "one-byte")
 				emitRT(out, pk, nil, false, "whole")
+				_, calls := wireCalls(pk)
+				emitRT(out, pk, calls, false, "message-per-write")
 			}
 		}
+	}
+	// (1b) empty bodies under message-per-write chunking (regression witness for the zero-length Write)
+	for _, t1 := range definedTypes {
+		pk := []pkt{{t1, false, nil}, {0x22, false, []byte{1, 2}}, {t1, true, nil}}
+		if isCmd(t1) {
+			continue
+		}
+		_, calls := wireCalls(pk)
+		emitRT(out, pk, calls, false, "message-per-write")
 	}
 	// (2) all 64 base types, both compression settings
 	for ty := 0; ty < 64; ty++ {
